@@ -36,8 +36,9 @@ tree     additionally, for the same (tree, order): get_numpy_path(order) = ['ein
          traverse('surface_order') (resp. the default order of a ContractionTreeCompressed) and -
          the surface score always puts a child strictly below its parent - contract lower scores
          first (non-decreasing scores; ties free); ContractionTreeCompressed.from_path on an
-         incomplete path (autocomplete True / 'auto' / False) is complete / exactly the prefix and
-         keeps the prefix at the head of its default order.
+         incomplete path - ssa_path= and linear path= - (autocomplete True / 'auto' / False) is
+         complete / exactly the prefix and keeps the prefix at the head of its default order
+         (networks without any index are left out: their completion is a path finder's business).
 formats  one (network, tree) through: from_eq (same inputs / output, empty, then contracted by hand
          along the path -> same nodes from both path getters); get_eq / get_shapes and the four
          *_sliced getters against the network with the removed indices deleted, along a history
@@ -49,7 +50,8 @@ formats  one (network, tree) through: from_eq (same inputs / output, empty, then
          and autocomplete='auto'; the deprecated from_edge_path (autocomplete / check passed on);
          is_ssa_path on paths that are valid in exactly one of the two formats; and the interface:
          array_contract_path / array_contract_tree with optimize = explicit path | tree | edge
-         path (tuple or list, canonicalize on / off, cache on / off: two calls).
+         path (tuple or list, canonicalize on / off, cache on / off: two calls; the empty edge path
+         included).
 Not driven: ContractionTree.get_spans (spanning-tree embeddings, no path format: the property
 says nothing about it).
 """
@@ -81,7 +83,9 @@ RULE = (
     "(opt_einsum PathInfo or stand-in; complete / mixed arity / incomplete), from_path(check=True, "
     "autocomplete='auto'), from_edge_path, is_ssa_path (either format, steps listed either way, cut short), "
     "interface routes path_explicit / path_tree / path_edge / tree_explicit / tree_edge x canonicalize x cache x "
-    "list|tuple"
+    "list|tuple (edge paths: full permutation, cut short, or empty - also under canonicalize=True); incomplete "
+    "prefixes go to ContractionTreeCompressed.from_path as ssa_path= (kind compressed) and as linear path= (kind "
+    "compressed_lin)"
 )
 ASSUMPTIONS = [
     "vf/ref.py path models (check_linear_path, check_ssa_path, path_to_nodes, linear_to_ssa_model, "
@@ -97,10 +101,11 @@ ASSUMPTIONS = [
     "is another property)",
     "from_info: opt_einsum.contract_path(eq, *shapes, shapes=True, optimize=path) is trusted to return a PathInfo "
     "that carries the given path (checked; otherwise the stand-in object is used)",
-    "is_ssa_path: demanded only for paths valid in exactly one format (vf/ref.py validators, incomplete allowed)",
-    "PENDING-FINDING exclusions (FINDINGS_widen-a.md): ssa paths whose last step starts with an input id "
-    "(is_ssa_path), empty edge path with canonicalize=True (interface), incomplete linear path to "
-    "ContractionTreeCompressed.from_path, compressed completion on a network with an empty size_dict",
+    "is_ssa_path: demanded only for paths valid in exactly one format (vf/ref.py validators, incomplete allowed); "
+    "all such paths are generated, steps listed either way round (is_ssa_true_input_id_first counts the ssa paths "
+    "whose last step starts with an input id)",
+    "scope: the compressed completion ('greedy-compressed' path finder) of a network without any index (empty "
+    "size_dict) is not a path-format conversion; such networks are not given to compressed_prefix",
 ]
 REQUIRED_MONITORS = [
     "build_vs_model",
@@ -128,6 +133,9 @@ REQUIRED_MONITORS = [
     "surface_paths",
     "surface_sorted",
     "compressed_prefix",
+    "compressed_prefix_linear",
+    "is_ssa_true_input_id_first",
+    "iface_empty_path_canonicalize",
     "from_eq",
     "eq_roundtrip",
     "eq_getters",
@@ -581,6 +589,8 @@ def check_compressed_prefix(rep, net, ssa, k, linear, auto):
     keys = set(ct.children_of(t))
     need(keys == set(head), "no_autocomplete", lambda: f"{what}, autocomplete=False) has nodes {show(keys)}, the path creates {show(set(head))}", plain(pre))
     rep.mon("compressed_prefix")
+    if linear:
+        rep.mon("compressed_prefix_linear")
 
 
 def run_tree(rep, case):
@@ -642,14 +652,13 @@ def run_tree(rep, case):
     rep.mon("incomplete_autocomplete")
     if kind in ("compressed", "compressed_lin"):
         k = rng.randint(0, len(ssa) - 1)
-        # PENDING-FINDING (FINDINGS_widen-a.md #3): ContractionTreeCompressed.from_path(path=<incomplete
-        # linear path>) raises IndexError (linear_to_ssa(path) guesses N from the path); until that
-        # is fixed the incomplete prefix is given in ssa form for both kinds
-        linear = False and kind == "compressed_lin"
+        # compressed_lin: the incomplete prefix is handed over as a LINEAR path (path=), compressed: as ssa_path=
+        linear = kind == "compressed_lin"
         auto = rng.choice([True, "auto"])
-        # PENDING-FINDING (FINDINGS_widen-a.md #4): the completion of a ContractionTreeCompressed uses
-        # 'greedy-compressed', which raises ValueError (max() of nothing) on a network whose size_dict
-        # is empty (scalars only) when three or more tensors remain; such networks are left out
+        # scope note: the completion of a ContractionTreeCompressed runs the 'greedy-compressed' path
+        # finder, which does not accept a network without any index (empty size_dict, scalars only);
+        # that is a path finder on a degenerate network, not a path-format conversion - outside
+        # C10's statement, so such networks are not given to this monitor
         if net.size_dict:
             check_compressed_prefix(rep, net, ssa, k, linear, auto)
 
@@ -933,6 +942,8 @@ def run_isssa(rep, case):
     if ssa_ok:
         need(bool(got), "is_ssa_path", lambda: f"is_ssa_path({plain(path)}, {n}) = {got!r} for a path that is valid in ssa form only (id >= {n} / position out of range for the linear reading)", plain(path))
         rep.mon("is_ssa_true")
+        if path and path[-1][0] < n:
+            rep.mon("is_ssa_true_input_id_first")  # the last step lists an input tensor first
     else:
         need(not got, "is_ssa_path", lambda: f"is_ssa_path({plain(path)}, {n}) = {got!r} for a path that is valid in linear form only (an id is used twice)", plain(path))
         rep.mon("is_ssa_false")
@@ -956,6 +967,8 @@ def run_iface(rep, case):
     lin = ref.ssa_to_linear_model(ssa, n)
     what = f"{route}(canonicalize={kw['canonicalize']}, cache={case.get('cache')})"
 
+    if route.endswith("_edge") and not case["edge_path"] and kw["canonicalize"]:
+        rep.mon("iface_empty_path_canonicalize")
     if route in ("path_explicit", "path_tree", "path_edge"):
         kw["cache"] = bool(case.get("cache"))
         if route == "path_explicit":
@@ -1157,14 +1170,8 @@ def format_cases(rep, cs, k):
     path = [tuple(reversed(s)) if rng.random() < 0.5 else tuple(s) for s in path]
     if rng.random() < 0.2:
         path = path[: rng.randint(0, len(path))]
-    # PENDING-FINDING (FINDINGS_widen-a.md #1): is_ssa_path answers False for every ssa path whose
-    # last step lists an input tensor first (it tests `i in seen` after `seen.add(i)`); only ssa
-    # paths whose last step starts with an intermediate id are generated until that is fixed
-    if fmt == "ssa" and path and path[-1][0] < n:
-        path[-1] = tuple(sorted(path[-1], reverse=True))
-    if not (fmt == "ssa" and path and path[-1][0] < n):
-        case = {"mode": "isssa", "n": n, "path": [list(s) for s in path], "fmt": fmt, "case_seed": cs}
-        run_case(rep, case, ("isssa", n, fmt, tuple(path)), big, "isssa:" + fmt, sample=case)
+    case = {"mode": "isssa", "n": n, "path": [list(s) for s in path], "fmt": fmt, "case_seed": cs}
+    run_case(rep, case, ("isssa", n, fmt, tuple(path)), big, "isssa:" + fmt, sample=case)
 
     # the interface: optimize = explicit path | tree | edge path
     route = IFACE_ROUTES[(k + rng.randrange(len(IFACE_ROUTES))) % len(IFACE_ROUTES)]
@@ -1174,10 +1181,8 @@ def format_cases(rep, cs, k):
         rng.shuffle(ep)
         if rng.random() < 0.3:
             ep = ep[: rng.randint(0, len(ep))]
-        # PENDING-FINDING (FINDINGS_widen-a.md #2): an empty explicit path / edge path raises
-        # IndexError in utils.is_edge_path under canonicalize=True (the default); not generated
-        if not ep and case["canon"]:
-            case["canon"] = False
+        if rng.random() < 0.06:
+            ep = []  # "eliminate nothing" = the empty explicit path
         case["edge_path"] = ep
     run_case(rep, case, ("iface", net.key(), tkey, route, case["canon"], case["cache"], case["aslist"], tuple(case.get("edge_path", ()))), big, "iface:" + route, sample={"eq": net.eq(), "ssa": ssa, "route": route, "canon": case["canon"], "edge_path": case.get("edge_path")})
 
